@@ -147,6 +147,10 @@ def run(ctx):
                     w.write_bin(post)
                     model = finish(w, pre + ubits(v, n) + post)
                     len0 = w.get_pos()
+                    if (n + off) % 2:
+                        # the stream may be serialised before the overwrite as well as after it (octet-aligned here)
+                        before = w.to_bytes()
+                        ctx.count('serialised_before_overwrite')
                     w.set_uint(v, n, len(pre))
                     len1 = w.get_pos()
                     out = w.to_bytes()
